@@ -1,8 +1,11 @@
 (* C11 — flat-integer interface of the model for the correspondence check.
-   input : [0; online; warn_ok; nbytes; nc; fs_m; fs_e; has_fts; fts_m; fts_e]   flat binary (Reader / OnlineReader)
-           [1; chns; chnc; nc; fs_m; fs_e; has_fts; fts_m; fts_e]                mtscomp branch (.ch announces chns x chnc)
+   input : [0; online; ignore_warnings; has_size; nbytes; nc; fs_m; fs_e; has_fts; fts_m; fts_e]
+                                                                                 flat binary (Reader / OnlineReader);
+           has_size / has_fts: the meta file has a fileSizeBytes / fileTimeSecs entry
+           [1; ignore_warnings; chns; chnc; nc; fs_m; fs_e; has_fts; fts_m; fts_e]   mtscomp branch (.ch announces chns x chnc)
            floats are passed exactly as m * 2^e
-   output: [0; ns; nc; rewritten] ++ enc(meta fileTimeSecs afterwards) ++ enc(rl)    opened
+   output: [0; ns; nc; warned] ++ enc(meta fileTimeSecs afterwards) ++ enc(rl)    opened
+           (warned = the mismatch warning was logged = fileTimeSecs rewritten and not ignore_warnings)
            [1] memmap ValueError   [2] int() of inf/nan   [3] TypeError (no fileTimeSecs)   [4] KeyError (warning)
    enc(float) = [class; sign; mantissa; exponent]  (class 0 zero, 1 inf, 2 nan, 3 finite; canonical m, e;
                  class 4 = key absent, for the meta entry only) *)
@@ -24,9 +27,9 @@ Definition enc_float (x : b64) : list Z :=
 Definition enc_ofloat (x : option b64) : list Z :=
   match x with None => [4; 0; 0; 0] | Some f => enc_float f end.
 
-Definition enc_outcome (fs : b64) (o : outcome) : list Z :=
+Definition enc_outcome (iw : bool) (fs : b64) (o : outcome) : list Z :=
   match o with
-  | Opened ns nc fts rw => [0; ns; nc; enc_bool rw] ++ enc_ofloat fts ++ enc_float (rl ns fs)
+  | Opened ns nc fts rw => [0; ns; nc; enc_bool (rw && negb iw)] ++ enc_ofloat fts ++ enc_float (rl ns fs)
   | MmapError => [1]
   | IntError => [2]
   | TypeErr => [3]
@@ -38,12 +41,13 @@ Definition dec_fts (has m e : Z) : option b64 :=
 
 Definition run (inp : list Z) : list Z :=
   match inp with
-  | [0; online; wok; nbytes; nc; fsm; fse; has; ftm; fte] =>
+  | [0; online; iw; hsz; nbytes; nc; fsm; fse; has; ftm; fte] =>
       let fs := of_me fsm fse in
-      enc_outcome fs (open_bin (online =? 1) (wok =? 1) nbytes nc (dec_fts has ftm fte) fs)
-  | [1; chns; chnc; nc; fsm; fse; has; ftm; fte] =>
+      let wok := (iw =? 1) || ((hsz =? 1) && (has =? 1)) in
+      enc_outcome (iw =? 1) fs (open_bin (online =? 1) wok nbytes nc (dec_fts has ftm fte) fs)
+  | [1; iw; chns; chnc; nc; fsm; fse; has; ftm; fte] =>
       let fs := of_me fsm fse in
-      enc_outcome fs (open_cbin chns chnc nc (dec_fts has ftm fte) fs)
+      enc_outcome (iw =? 1) fs (open_cbin chns chnc nc (dec_fts has ftm fte) fs)
   | _ => [-999]
   end.
 
